@@ -47,12 +47,12 @@ ASSUMPTIONS = [
     "(rejection of everything else is an obligation of its own)",
     "pool model: supply >= 0 finite, demand finite; minimum != +inf, maximum != -inf",
     "floats are exact reals (model R) or multiples of 1/4 (model G4); no IEEE rounding",
-    "granularity is an int (documented type); granularity == 1 is the documented 'no rounding' "
+    "granularity is an int (documented type) or one of the listed fractional constants; granularity == 1 is the documented 'no rounding' "
     "default, so for g == 1 the forwarded value is the limited, unrounded value",
 ]
 OUTSIDE = [
     "IEEE rounding of float // and *", "fractional values off the 1/4 grid where model G4 is used "
-    "(int demand with float limits; floats in multi-step histories)", "float granularity",
+    "(int demand with float limits; floats in multi-step histories)", "float granularity other than 0.5 (quick) / 0.25, 0.5, 1.5 (thorough)",
     "nan (rejected by the constructor: checked concretely, by type)",
 ]
 
@@ -60,7 +60,7 @@ OUTSIDE = [
 def BOUNDS(tier):
     return {
         "type_configurations": 324,
-        "granularity": [1, 2, 3] if tier == "quick" else [1, 2, 3, 7, "symbolic (Z, R)"],
+        "granularity": [1, 2, 3, 0.5] if tier == "quick" else [1, 2, 3, 7, 0.25, 0.5, 1.5, "symbolic (Z, R)"],
         "history_length": 2 if tier == "quick" else 3,
         "increments": 3 if tier == "quick" else 4,
     }
@@ -297,6 +297,14 @@ def tasks(tier, seed):
         for g in ((2,) if tier == "quick" else (2, 3)):
             out.append(Task(MOD, "one_write", dict(tv=tv, ts=ts, tmin=tmin, tmax=tmax, tb=tb, tsur=tsur, g=g),
                             model="G4", witness_every=wit * 2, name="one_write_float_on_grid"))
+    # fractional granularities (accepted by the constructor: granularity > 0), float demands, over the reals
+    for cfg in _configs():
+        tv, ts, tmin, tmax, tb, tsur = cfg
+        if not all(t in ("float", "inf") for t in cfg):  # mixed Int/Real floor quotients do not finish in budget
+            continue
+        for g in ((0.5,) if tier == "quick" else (0.5, 0.25, 1.5)):
+            out.append(Task(MOD, "one_write", dict(tv=tv, ts=ts, tmin=tmin, tmax=tmax, tb=tb, tsur=tsur, g=g),
+                            model="R", witness_every=wit * 2, name="one_write_fractional_granularity"))
     # aliases are the same class: one all-int and one all-float configuration each
     for cls in ("Limiter", "Coarser"):
         for cfg in (HIST_CONFIGS[0], HIST_CONFIGS[2]):
